@@ -441,6 +441,10 @@ func (r *Reader) seekIndexed(want record) (*tableIter, error) {
 		if err != nil {
 			return nil, err
 		}
+		if tabIter == nil {
+			// index entry points outside the table.
+			return nil, fmtError
+		}
 
 		err = tabIter.bi.seek(want.key())
 		if err != nil {
@@ -452,7 +456,8 @@ func (r *Reader) seekIndexed(want record) (*tableIter, error) {
 		}
 
 		if tabIter.typ != blockTypeIndex {
-			log.Panicf("got type %c following indexes", tabIter.typ)
+			// index entry points at a block of another section.
+			return nil, fmtError
 		}
 
 		idxIter = tabIter
@@ -483,7 +488,8 @@ func (r *Reader) seekLinear(tabIter *tableIter, want record) (bool, error) {
 			return false, err
 		}
 		if !ok {
-			panic("read from fresh block failed")
+			// a block without records.
+			return false, fmtError
 		}
 		if rec.key() > wantKey {
 			break
